@@ -107,6 +107,7 @@ func errClass(msg string) string {
 func TestProp(t *testing.T) {
 	c := pkit.Load(prop)
 	c.Check(t, func(rt *rapid.T) {
+		var selfPrinting *progen.Decl
 		s := e2.DrawStructural(rt, e2.StructOpt{
 			Env:    progen.EnvOpt{ExportedOnly: true, NoPrivateExt: true, PtrKeys: true, Avoid: c.ActiveSet()},
 			NTypes: 14, Carriers: true,
@@ -143,9 +144,24 @@ func TestProp(t *testing.T) {
 					pf = append(pf, progen.PtrTo(pf[0]))
 					out = append(out, e2.Carrier(env, "WP", pf...))
 				}
+				// the idiom of the documentation: a struct whose GoString method (pointer receiver) is the derived
+				// function, held by value, by pointer and as an element elsewhere
+				if len(env.Structs) > 0 && rapid.Bool().Draw(rt, "self-printing") {
+					selfPrinting = env.Structs[rapid.IntRange(0, len(env.Structs)-1).Draw(rt, "self-printing-struct")]
+					st := progen.NamedT(selfPrinting)
+					out = append(out, progen.PtrTo(st), e2.Carrier(env, "WG", st, progen.B("int"), progen.PtrTo(st)), progen.SliceOf(st))
+				}
 				return out
 			},
 		})
+		if selfPrinting != nil {
+			for _, e := range s.Entries {
+				if e.TypeStr == "*p."+selfPrinting.Name && e.Funcs["gostring"] != "" {
+					s.Prog.Add("func (this *%s) GoString() string {\n\treturn %s(this)\n}\n", selfPrinting.Name, e.Funcs["gostring"])
+					e.Tags["self-printing"] = "1"
+				}
+			}
+		}
 		var imports, anchors []string
 		for _, x := range s.Prog.Env.Ext {
 			imports = append(imports, x.ImportPath())
